@@ -8,6 +8,7 @@ import (
 	"verif/harness/core"
 	"verif/harness/gen"
 	"verif/harness/model"
+	"verif/harness/pgwire"
 	"verif/harness/script"
 )
 
@@ -215,6 +216,11 @@ func (b *builder) randomMsg() script.CMsg {
 			return script.CMsg{K: "C", Kind: 'S', Name: rapid.SampledFrom(stmtNames).Draw(t, "stmt-name")}
 		}
 		return script.CMsg{K: "C", Kind: 'P', Portal: rapid.SampledFrom(portalNames).Draw(t, "portal-name")}
+	}
+	if !b.c.Pipelined && rapid.Bool().Draw(t, "oversized?") {
+		// answered with one 54000 error in any state; the discard state must survive it
+		body := make([]byte, limit+1+rapid.IntRange(0, 50).Draw(t, "over"))
+		return script.CMsg{K: "raw", Over: true, Data: pgwire.Msg(rapid.SampledFrom([]byte{'P', 'B', 'Q', 'E'}).Draw(t, "over-type"), body)}
 	}
 	return script.CMsg{K: "H"}
 }
